@@ -57,16 +57,21 @@ CHECKS = {
              'permission bits); D8 was found by this check and repaired (fix: 09e13fb).',
         design='5/C04'),
     'C13': dict(
-        engine='spec/LineFilter.tla, spec/LineFilterExport.tla',
+        engine='spec/LineFilter.tla, spec/LineFilterExport.tla, spec/IntervalOps.tla, spec/IntervalLemmas.tla (Apalache), '
+               'spec/IntervalOpsEq.tla',
         technique='TLC model checking of the interval mechanism as coded against the per-line reference for every '
                   'expression built by a stack machine + replay of every enumerated expression / range list through '
-                  'the real CLI',
+                  'the real CLI; the induction steps of the soundness invariants for ALL integer operands by Apalache '
+                  '(SMT), bound to the TLC model by an operator-equality check',
         text='TLC checks IntervalSound, InversionSound and FilterExact for every line-matcher expression up to a token '
              'bound (both levels, six operators, operands around the text bounds) on a model of the two interval '
              'visitors, the adaption to line numbers and interval-limited reading; every expression and every range '
              'list TLC enumerates (plus deep random ones from -simulate) is rendered in the DSL and run on texts of 0, 1 '
-             'and N lines, and the kept lines are compared with the reference.',
-        note='Bounded expression size / operand values; the mechanism model mirrors the code after the repair of D1 (the '
+             'and N lines, and the kept lines are compared with the reference.  Apalache proves the local lemmas '
+             '(leaf, natural pair, union / intersection with De Morgan inversion, adaption to line numbers) for '
+             'unbounded integers and refutes the pre-repair combination.',
+        note='Bounded expression size / operand values for TLC and the replay (the Apalache lemmas are unbounded in the '
+             'operands, not in the expression: the induction over the expression is not mechanised); the mechanism model mirrors the code after the repair of D1 (the '
              'old mechanism is kept as deviation D1 and TLC must find its counterexample in every run).',
         design='5/C13'),
     'C09': dict(
